@@ -45,6 +45,10 @@ bool index_read(zckCtx *zck, char *data, size_t size, size_t max_length) {
     VALIDATE_BOOL(zck);
     size_t length = 0;
 
+    /* The index is size bytes long; nothing in it may lie beyond that */
+    if(size < max_length)
+        max_length = size;
+
     /* Read and configure hash type */
     int hash_type = 0;
     if(!compint_to_int(zck, &hash_type, data + length, &length, max_length)) {
@@ -104,6 +108,13 @@ bool index_read(zckCtx *zck, char *data, size_t size, size_t max_length) {
                 free(new->digest);
                 free(new);
                 zck_log(ZCK_LOG_ERROR, "OOM in %s", __func__);
+                return false;
+            }
+            if(length + zck->index.digest_size > max_length) {
+                free(new->digest_uncompressed);
+                free(new->digest);
+                free(new);
+                set_fatal_error(zck, "Read past end of header");
                 return false;
             }
             memcpy(new->digest_uncompressed, data+length, zck->index.digest_size);
